@@ -293,8 +293,14 @@ func (env *evalEnv) binary(v *ast.BinaryExpr) SV {
 	a, b := env.coerce(env.eval(v.X), env.eval(v.Y))
 	switch v.Op {
 	case token.EQL:
+		if a.t.sort == "Str" {
+			return SV{t: env.e.strEq(a.t, b.t), typ: boolT}
+		}
 		return SV{t: tb.Eq(a.t, b.t), typ: boolT}
 	case token.NEQ:
+		if a.t.sort == "Str" {
+			return SV{t: tb.Not(env.e.strEq(a.t, b.t)), typ: boolT}
+		}
 		return SV{t: tb.Not(tb.Eq(a.t, b.t)), typ: boolT}
 	case token.LSS, token.LEQ, token.GTR, token.GEQ:
 		if a.t.sort == "Str" {
@@ -776,4 +782,22 @@ func (env *evalEnv) typeFromTextGeneric(s string, arg SV) types.Type {
 		env.fail("cannot resolve type %q: %v", s, err)
 	}
 	return t
+}
+
+// isXMLNameLit decides the XML Name production for a literal (ASCII subset plus any non-ASCII letter start; conservative).
+func isXMLNameLit(s string) bool {
+	if s == "" {
+		return false
+	}
+	for i, r := range s {
+		start := r == '_' || r == ':' || (r >= 'a' && r <= 'z') || (r >= 'A' && r <= 'Z')
+		if start {
+			continue
+		}
+		if i > 0 && (r == '-' || r == '.' || (r >= '0' && r <= '9')) {
+			continue
+		}
+		return false
+	}
+	return true
 }
